@@ -701,4 +701,124 @@ theorem file_all (p : Proposal) (hd : p.Dom) :
   cases p; simp
 
 
+
+
+
+theorem parseProposal_marshal (p : Proposal) (last : Bool) (h rest : Bytes) (hd : p.Dom)
+    (hm : marshalProposal last p = .ok h) :
+    parseProposal (h ++ rest) = .ok (p, h.length) ∧ 8 ≤ h.length := by
+  unfold marshalProposal at hm
+  split at hm
+  · simp at hm
+  · rename_i hspi
+    dsimp only at hm
+    split at hm
+    · simp at hm
+    · split at hm
+      · simp at hm
+      · rename_i hne h255
+        cases hts : marshalTransforms p.transforms with
+        | err => simp [hts] at hm
+        | fault => simp [hts] at hm
+        | ok td =>
+          simp only [hts, Res.bind_ok] at hm
+          split at hm
+          · simp at hm
+          · rename_i hlen
+            simp only [Res.ok.injEq] at hm
+            subst hm
+            have hl : (UInt16.ofNat (8 + p.spi.length + td.length)).toNat = 8 + p.spi.length + td.length :=
+              ofNat_toNat_u16 _ (by omega)
+            generalize hv : UInt16.ofNat (8 + p.spi.length + td.length) = v at *
+            have hs : (UInt8.ofNat p.spi.length).toNat = p.spi.length := ofNat_toNat_u8 _ (by omega)
+            generalize hsv : UInt8.ofNat p.spi.length = sv at *
+            have e8 : (8 : UInt16).toNat = 8 := rfl
+            refine ⟨?_, by len_omega⟩
+            unfold parseProposal
+            go_steps
+            have hpl : be16 (byteAt ([if last = true then 0 else 2, 0] ++ put16 v ++ [p.num, p.proto, sv, UInt8.ofNat p.transforms.length] ++ p.spi ++ td ++ rest) 2)
+                            (byteAt ([if last = true then 0 else 2, 0] ++ put16 v ++ [p.num, p.proto, sv, UInt8.ofNat p.transforms.length] ++ p.spi ++ td ++ rest) 3) = v := by
+              simp [put16, be16_put]
+            rw [hpl]
+            rw [if_neg (by simp only [UInt16.lt_iff_toNat_lt, hl, e8]; omega), hl, if_neg (by len_omega)]
+            go_steps
+            have h4 : byteAt ([if last = true then 0 else 2, 0] ++ put16 v ++ [p.num, p.proto, sv, UInt8.ofNat p.transforms.length] ++ p.spi ++ td ++ rest) 4 = p.num := by simp [put16]
+            have h5 : byteAt ([if last = true then 0 else 2, 0] ++ put16 v ++ [p.num, p.proto, sv, UInt8.ofNat p.transforms.length] ++ p.spi ++ td ++ rest) 5 = p.proto := by simp [put16]
+            have h6 : byteAt ([if last = true then 0 else 2, 0] ++ put16 v ++ [p.num, p.proto, sv, UInt8.ofNat p.transforms.length] ++ p.spi ++ td ++ rest) 6 = sv := by simp [put16]
+            rw [h4, h5, h6, hs]
+            have hut := unmarshalTransforms_marshal p.transforms td ⟨p.num, p.proto, p.spi, [], [], [], [], []⟩
+              (by
+                intro t ht
+                obtain ⟨d1, d2, d3, d4, d5⟩ := hd
+                simp only [Proposal.transforms, List.mem_append] at ht
+                rcases ht with (((ht | ht) | ht) | ht) | ht
+                · exact (d1 t ht).2
+                · exact (d2 t ht).2
+                · exact (d3 t ht).2
+                · exact (d4 t ht).2
+                · exact (d5 t ht).2) hts
+            rw [file_all p hd] at hut
+            have htd : List.drop (8 + p.spi.length) (List.take (8 + p.spi.length + td.length)
+                ([if last = true then 0 else 2, 0] ++ put16 v ++ [p.num, p.proto, sv, UInt8.ofNat p.transforms.length] ++ p.spi ++ td ++ rest)) = td := by
+              have := drop_take_mid ([if last = true then 0 else 2, 0] ++ put16 v ++ [p.num, p.proto, sv, UInt8.ofNat p.transforms.length] ++ p.spi) td rest
+                (8 + p.spi.length) (8 + p.spi.length + td.length) (by simp; omega) (by simp; omega)
+              simpa [List.append_assoc] using this
+            by_cases hz : p.spi.length > 0
+            · rw [if_pos hz, if_neg (by omega)]
+              go_steps
+              have hsp : List.drop 8 (List.take (8 + p.spi.length)
+                  ([if last = true then 0 else 2, 0] ++ put16 v ++ [p.num, p.proto, sv, UInt8.ofNat p.transforms.length] ++ p.spi ++ td ++ rest)) = p.spi := by
+                have := drop_take_mid ([if last = true then 0 else 2, 0] ++ put16 v ++ [p.num, p.proto, sv, UInt8.ofNat p.transforms.length]) p.spi (td ++ rest)
+                  8 (8 + p.spi.length) (by simp) (by simp)
+                simpa [List.append_assoc] using this
+              rw [hsp, htd, hut]
+              simp
+              omega
+            · rw [if_neg hz]
+              have hz0 : p.spi.length = 0 := by omega
+              have hnil : p.spi = [] := List.eq_nil_of_length_eq_zero hz0
+              go_steps
+              rw [htd]
+              rw [hnil] at hut ⊢
+              rw [hut]
+              simp [hnil]
+              try omega
+
+
+
+
+theorem rt_proposals (ps : List Proposal) (bs : Bytes) (hd : ∀ p ∈ ps, p.Dom)
+    (hm : marshalProposals ps = .ok bs) : unmarshalProposals bs = .ok ps := by
+  induction ps generalizing bs with
+  | nil =>
+    simp [marshalProposals] at hm; subst hm
+    unfold unmarshalProposals; simp
+  | cons p rest ih =>
+    simp only [marshalProposals] at hm
+    cases hh : marshalProposal rest.isEmpty p with
+    | err => simp [hh] at hm
+    | fault => simp [hh] at hm
+    | ok h =>
+      cases hr : marshalProposals rest with
+      | err => simp [hh, hr] at hm
+      | fault => simp [hh, hr] at hm
+      | ok tl =>
+        simp [hh, hr] at hm
+        subst hm
+        obtain ⟨hp, h8⟩ := parseProposal_marshal p rest.isEmpty h tl (hd p (by simp)) hh
+        unfold unmarshalProposals
+        rw [dif_neg (by len_omega), if_neg (by len_omega), hp]
+        simp only
+        rw [dif_pos (by len_omega)]
+        simp only [List.drop_left]
+        rw [ih tl (fun x hx => hd x (by simp [hx])) hr]
+
+theorem rt_SA (ps : List Proposal) (bs : Bytes) (hd : ∀ p ∈ ps, p.Dom)
+    (hm : marshalSA ps = .ok bs) : unmarshalSA bs = .ok (.sa ps) := by
+  unfold marshalSA at hm
+  unfold unmarshalSA
+  rw [rt_proposals ps bs hd hm]
+  simp
+
+
 end Ike
